@@ -22,6 +22,8 @@ import (
 	sgetypes "github.com/sge-network/sge/types"
 	bettypes "github.com/sge-network/sge/x/bet/types"
 	housetypes "github.com/sge-network/sge/x/house/types"
+	obtypes "github.com/sge-network/sge/x/orderbook/types"
+	rewardtypes "github.com/sge-network/sge/x/reward/types"
 	markettypes "github.com/sge-network/sge/x/market/types"
 	ovmtypes "github.com/sge-network/sge/x/ovm/types"
 	subtypes "github.com/sge-network/sge/x/subaccount/types"
@@ -314,7 +316,13 @@ func (c *Chain) Exec(o Op) (string, string) {
 		msg = &m
 		signer = int(o.Granter)
 	case "SEND":
-		msg = banktypes.NewMsgSend(sdk.MustAccAddressFromBech32(c.AddrOf(o.From)), sdk.MustAccAddressFromBech32(c.AddrOf(o.To)),
+		to := c.AddrOf(o.To)
+		if o.To < 0 && o.To >= -5 {
+			// the model's module account ids: a bank send to a custody / module account (blocked recipients)
+			to = c.ModAddr([]string{obtypes.OrderBookLiquidityFunder{}.GetModuleAcc(), bettypes.BetFeeCollectorFunder{}.GetModuleAcc(),
+				housetypes.HouseFeeCollectorFunder{}.GetModuleAcc(), rewardtypes.RewardPoolFunder{}.GetModuleAcc(), "fee_collector"}[-o.To-1]).String()
+		}
+		msg = banktypes.NewMsgSend(sdk.MustAccAddressFromBech32(c.AddrOf(o.From)), sdk.MustAccAddressFromBech32(to),
 			sdk.NewCoins(sdk.NewCoin(Denom, sdkmath.NewIntFromBigInt(o.Amount))))
 		signer = int(o.From)
 	default:
